@@ -214,3 +214,298 @@ Proof.
   - apply rd_go_length.
   - destruct target; reflexivity.
 Qed.
+
+(* ------------------------------------------------------------------------------------------------ *)
+(** * The method chain: minimise_table, minimise_tables *)
+
+(* What minimise_table needs of a method f on table t: run to the end (no target) it returns a table
+   [full] that routes like t and is not longer; with a target it either returns a table that routes
+   like t, is not longer and meets the target, or fails reporting exactly len full > target. *)
+Definition method_ok (f : table -> option Z -> result table) (t : table) : Prop :=
+  exists full,
+    f t None = Ok full /\ route_eq t full /\ len full <= len t /\
+    forall tl,
+      match f t (Some tl) with
+      | Ok r => route_eq t r /\ len r <= len t /\ len r <= tl
+      | Failed n => n = len full /\ tl < n
+      | OtherError | OutOfFuel => False
+      end.
+
+(* the size a method reaches when run to the end *)
+Definition full_size (f : table -> option Z -> result table) (t : table) : Z :=
+  match f t None with Ok full => len full | _ => len t end.
+
+Lemma remove_default_method_ok : forall t, method_ok remove_default t.
+Proof.
+  intros t. destruct (remove_default_spec t None) as [full [Hn [Hre [Hlen _]]]].
+  exists full. split; [exact Hn | split; [exact Hre | split; [exact Hlen |]]].
+  intros tl. destruct (remove_default_spec t (Some tl)) as [full' [Hn' [_ [_ Hs]]]].
+  rewrite Hn in Hn'. injection Hn' as <-. rewrite Hs.
+  destruct (tl <? len full) eqn:Hlt.
+  - apply Z.ltb_lt in Hlt. split; [reflexivity | exact Hlt].
+  - apply Z.ltb_ge in Hlt. split; [exact Hre | split; assumption].
+Qed.
+
+(* the smallest size reached by the methods, starting from [best] *)
+Fixpoint best_size (ms : list (table -> option Z -> result table)) (t : table) (best : Z) : Z :=
+  match ms with
+  | [] => best
+  | f :: ms' => best_size ms' t (Z.min best (full_size f t))
+  end.
+
+Lemma min_if : forall a best, (if a <? best then a else best) = Z.min best a.
+Proof. intros a best. destruct (a <? best) eqn:Hc; [apply Z.ltb_lt in Hc | apply Z.ltb_ge in Hc]; lia. Qed.
+
+Lemma try_methods_spec : forall ms t tl best,
+  Forall (fun f => method_ok f t) ms ->
+  match try_methods ms t tl best with
+  | Ok r => route_eq t r /\ len r <= len t /\ len r <= tl
+  | Failed n => n = best_size ms t best /\ Forall (fun f => tl < full_size f t <= len t) ms
+  | OtherError | OutOfFuel => False
+  end.
+Proof.
+  induction ms as [| f ms' IH]; intros t tl best Hok; simpl.
+  - split; [reflexivity | constructor].
+  - inversion Hok as [| ? ? Hf Hms']; subst.
+    destruct Hf as [full [Hn [_ [Hlen Ht]]]]. specialize (Ht tl).
+    unfold full_size at 1. rewrite Hn.
+    destruct (f t (Some tl)) as [r | n | |] eqn:Hft; try contradiction.
+    + exact Ht.
+    + destruct Ht as [-> Hlt]. rewrite min_if.
+      specialize (IH t tl (Z.min best (len full)) Hms').
+      destruct (try_methods ms' t tl (Z.min best (len full))) as [r | n | |]; try contradiction.
+      * exact IH.
+      * destruct IH as [-> Hall]. split; [reflexivity |].
+        constructor; [unfold full_size; rewrite Hn; lia | exact Hall].
+Qed.
+
+Lemma best_size_gt : forall ms t tl best,
+  Forall (fun f => tl < full_size f t <= len t) ms -> tl < best -> tl < best_size ms t best.
+Proof.
+  induction ms as [| f ms' IH]; intros t tl best Hall Hb; simpl; [exact Hb |].
+  inversion Hall as [| ? ? Hf Hms']; subst. apply IH; [exact Hms' | lia].
+Qed.
+
+Lemma all_results_spec : forall ms t,
+  Forall (fun f => method_ok f t) ms ->
+  exists rs, all_results ms t = Ok rs /\ length rs = length ms /\
+             Forall (fun r => route_eq t r /\ len r <= len t) rs.
+Proof.
+  induction ms as [| f ms' IH]; intros t Hok; simpl.
+  - exists []. split; [reflexivity | split; [reflexivity | constructor]].
+  - inversion Hok as [| ? ? Hf Hms']; subst.
+    destruct Hf as [full [Hn [Hre [Hlen _]]]].
+    destruct (IH t Hms') as [rs [Hrs [Hl Hall]]].
+    exists (full :: rs). rewrite Hn. simpl. rewrite Hrs. simpl.
+    split; [reflexivity | split; [simpl; congruence | constructor; [split; assumption | exact Hall]]].
+Qed.
+
+Lemma shortest_spec : forall (P : table -> Prop) l best,
+  P best -> Forall P l -> P (shortest best l) /\ len (shortest best l) <= len best.
+Proof.
+  intros P l. induction l as [| x l' IH]; intros best Hb Hl; simpl; [split; [exact Hb | lia] |].
+  inversion Hl as [| ? ? Hx Hl']; subst.
+  destruct (len x <? len best) eqn:Hc.
+  - apply Z.ltb_lt in Hc. destruct (IH x Hx Hl') as [H1 H2]. split; [exact H1 | lia].
+  - apply IH; assumption.
+Qed.
+
+(* minimise_table with methods identity :: ms (all of ms method_ok, ms not empty) *)
+Lemma identity_then_methods_target : forall ms t tl,
+  Forall (fun f => method_ok f t) ms -> ms <> [] ->
+  match try_methods (identity_method :: ms) t tl (len t) with
+  | Ok r => route_eq t r /\ len r <= len t /\ len r <= tl
+  | Failed n => n = best_size ms t (len t) /\ tl < n
+  | OtherError | OutOfFuel => False
+  end.
+Proof.
+  intros ms t tl Hok Hne. simpl. destruct (len t <? tl) eqn:Hc.
+  - apply Z.ltb_lt in Hc. split; [apply route_eq_refl | lia].
+  - apply Z.ltb_ge in Hc. rewrite Z.ltb_irrefl.
+    pose proof (try_methods_spec ms t tl (len t) Hok) as H.
+    destruct (try_methods ms t tl (len t)) as [r | n | |]; try contradiction; [exact H |].
+    destruct H as [-> Hall]. split; [reflexivity |].
+    destruct ms as [| f ms']; [contradiction |].
+    inversion Hall as [| ? ? Hf Hms']; subst. simpl.
+    apply best_size_gt; [exact Hms' | lia].
+Qed.
+
+Lemma identity_then_methods_none : forall ms t,
+  Forall (fun f => method_ok f t) ms ->
+  exists rs, all_results (identity_method :: ms) t = Ok (t :: rs) /\
+             route_eq t (shortest t rs) /\ len (shortest t rs) <= len t.
+Proof.
+  intros ms t Hok. destruct (all_results_spec ms t Hok) as [rs [Hrs [_ Hall]]].
+  exists rs. simpl. rewrite Hrs. simpl. split; [reflexivity |].
+  destruct (shortest_spec (fun r => route_eq t r /\ len r <= len t) rs t) as [[H1 H2] H3].
+  - split; [apply route_eq_refl | lia].
+  - exact Hall.
+  - split; assumption.
+Qed.
+
+(* U: minimise_table (default methods), given that ordered covering is method_ok on this table *)
+Theorem minimise_table_spec : forall t target,
+  method_ok oc_minimise t ->
+  match minimise_table t target with
+  | Ok r => route_eq t r /\ len r <= len t /\ (forall tl, target = Some tl -> len r <= tl)
+  | Failed n =>
+      exists tl, target = Some tl /\ tl < n /\
+                 n = Z.min (Z.min (len t) (full_size remove_default t)) (full_size oc_minimise t)
+  | OtherError | OutOfFuel => False
+  end.
+Proof.
+  intros t target Hoc.
+  assert (Hok : Forall (fun f => method_ok f t) [remove_default; oc_minimise]).
+  { constructor; [apply remove_default_method_ok | constructor; [exact Hoc | constructor]]. }
+  unfold minimise_table, methods. destruct target as [tl |].
+  - pose proof (identity_then_methods_target [remove_default; oc_minimise] t tl Hok) as H.
+    destruct (try_methods (identity_method :: [remove_default; oc_minimise]) t tl (len t)) as [r | n | |].
+    + destruct (H ltac:(discriminate)) as [H1 [H2 H3]].
+      split; [exact H1 | split; [exact H2 |]]. intros tl' Heq. injection Heq as <-. exact H3.
+    + destruct (H ltac:(discriminate)) as [-> Hlt]. exists tl. split; [reflexivity | split; [exact Hlt |]].
+      reflexivity.
+    + apply H. discriminate.
+    + apply H. discriminate.
+  - destruct (identity_then_methods_none [remove_default; oc_minimise] t Hok) as [rs [Hrs [H1 H2]]].
+    rewrite Hrs. simpl. split; [exact H1 | split; [exact H2 |]]. intros tl Heq. discriminate.
+Qed.
+
+(* minimise_tables without the accumulator *)
+Fixpoint mts_spec (ts : list (chip * table)) (tg : targets) : tables_outcome :=
+  match ts with
+  | [] => TablesOk []
+  | (c, t) :: ts' =>
+      match target_for tg c with
+      | None => TablesOther
+      | Some tl =>
+          match minimise_table t tl with
+          | Ok r =>
+              match mts_spec ts' tg with
+              | TablesOk o => TablesOk (match r with [] => o | _ => (c, r) :: o end)
+              | x => x
+              end
+          | Failed fl => TablesFailed c fl
+          | OtherError => TablesOther
+          | OutOfFuel => TablesOutOfFuel
+          end
+      end
+  end.
+
+Lemma minimise_tables_go_spec : forall ts tg acc,
+  minimise_tables_go ts tg acc =
+  match mts_spec ts tg with TablesOk o => TablesOk (rev acc ++ o) | x => x end.
+Proof.
+  induction ts as [| [c t] ts' IH]; intros tg acc; simpl.
+  - rewrite app_nil_r. reflexivity.
+  - destruct (target_for tg c) as [tl |]; [| reflexivity].
+    destruct (minimise_table t tl) as [r | n | |]; try reflexivity.
+    destruct r as [| e r'].
+    + rewrite IH. destruct (mts_spec ts' tg); reflexivity.
+    + rewrite IH. simpl. destruct (mts_spec ts' tg); try reflexivity.
+      rewrite <- app_assoc. reflexivity.
+Qed.
+
+(* the table a result dictionary holds for a chip: absent means empty *)
+Definition table_of (out : list (chip * table)) (c : chip) : table :=
+  match cassoc c out with Some r => r | None => [] end.
+
+Lemma chip_eqb_eq : forall a b, chip_eqb a b = true <-> a = b.
+Proof.
+  intros [a1 a2] [b1 b2]. unfold chip_eqb; simpl. rewrite andb_true_iff, !Z.eqb_eq.
+  split; [intros [-> ->]; reflexivity | intros H; injection H as -> ->; split; reflexivity].
+Qed.
+
+Lemma cassoc_In : forall (o : list (chip * table)) c r, cassoc c o = Some r -> In (c, r) o.
+Proof.
+  induction o as [| [c1 r1] o' IH]; intros c r H; simpl in H; [discriminate |].
+  destruct (chip_eqb c c1) eqn:Hc.
+  - injection H as <-. apply chip_eqb_eq in Hc. subst c1. left. reflexivity.
+  - right. apply IH. exact H.
+Qed.
+
+Lemma mts_spec_keys : forall ts tg o c r,
+  mts_spec ts tg = TablesOk o -> In (c, r) o -> In c (map fst ts).
+Proof.
+  induction ts as [| [c0 t0] ts' IH]; intros tg o c r H Hin; simpl in H.
+  - injection H as <-. destruct Hin.
+  - destruct (target_for tg c0) as [tl |]; [| discriminate].
+    destruct (minimise_table t0 tl) as [r0 | | |]; try discriminate.
+    destruct (mts_spec ts' tg) as [o' | | |] eqn:Ho'; try discriminate.
+    injection H as <-. simpl.
+    destruct r0 as [| e r0'].
+    + right. apply (IH tg o' c r Ho' Hin).
+    + destruct Hin as [Heq | Hin]; [left; congruence | right; apply (IH tg o' c r Ho' Hin)].
+Qed.
+
+(* U: minimise_tables: every chip's table is minimised as by minimise_table with that chip's target;
+   chips whose result is empty are dropped (their table_of is []); a failure names a chip of the input
+   and carries minimise_table's error for it. *)
+Theorem minimise_tables_spec : forall ts tg,
+  NoDup (map fst ts) ->
+  (forall c t, In (c, t) ts -> method_ok oc_minimise t) ->
+  match minimise_tables ts tg with
+  | TablesOk out =>
+      (forall c t, In (c, t) ts ->
+         exists tl, target_for tg c = Some tl /\ minimise_table t tl = Ok (table_of out c) /\
+                    route_eq t (table_of out c) /\ len (table_of out c) <= len t /\
+                    (forall n, tl = Some n -> len (table_of out c) <= n))
+      /\ (forall c r, In (c, r) out -> In c (map fst ts))
+  | TablesFailed c n =>
+      exists t tl, In (c, t) ts /\ target_for tg c = Some (Some tl) /\
+                   minimise_table t (Some tl) = Failed n /\ tl < n
+  | TablesOther => exists c t, In (c, t) ts /\ target_for tg c = None
+  | TablesOutOfFuel => False
+  end.
+Proof.
+  intros ts tg Hnd Hoc. unfold minimise_tables. rewrite minimise_tables_go_spec. simpl.
+  assert (Hmain : match mts_spec ts tg with
+                  | TablesOk out =>
+                      (forall c t, In (c, t) ts ->
+                         exists tl, target_for tg c = Some tl /\ minimise_table t tl = Ok (table_of out c) /\
+                                    route_eq t (table_of out c) /\ len (table_of out c) <= len t /\
+                                    (forall n, tl = Some n -> len (table_of out c) <= n))
+                  | TablesFailed c n =>
+                      exists t tl, In (c, t) ts /\ target_for tg c = Some (Some tl) /\
+                                   minimise_table t (Some tl) = Failed n /\ tl < n
+                  | TablesOther => exists c t, In (c, t) ts /\ target_for tg c = None
+                  | TablesOutOfFuel => False
+                  end).
+  { induction ts as [| [c0 t0] ts' IH]; simpl.
+    - intros c t [].
+    - inversion Hnd as [| ? ? Hnotin Hnd']; subst.
+      assert (Hoc' : forall c t, In (c, t) ts' -> method_ok oc_minimise t)
+        by (intros c t H; apply (Hoc c t); right; exact H).
+      specialize (IH Hnd' Hoc').
+      destruct (target_for tg c0) as [tl |] eqn:Htg.
+      2:{ exists c0, t0. split; [left; reflexivity | exact Htg]. }
+      pose proof (minimise_table_spec t0 tl (Hoc c0 t0 (or_introl eq_refl))) as Hmt.
+      destruct (minimise_table t0 tl) as [r0 | n | |] eqn:Hm; try contradiction.
+      + destruct (mts_spec ts' tg) as [o' | c' n' | |] eqn:Ho'.
+        * intros c t [Heq | Hin].
+          -- injection Heq as <- <-. exists tl. split; [exact Htg |].
+             assert (Htab : table_of (match r0 with [] => o' | _ :: _ => (c0, r0) :: o' end) c0 = r0).
+             { unfold table_of. destruct r0 as [| e r0'].
+               - destruct (cassoc c0 o') as [r |] eqn:Hca; [| reflexivity]. exfalso.
+                 apply Hnotin.
+                 pose proof (cassoc_In _ _ _ Hca) as Hin.
+                 apply (mts_spec_keys ts' tg o' c0 r Ho' Hin).
+               - simpl. assert (Hr : chip_eqb c0 c0 = true) by (apply chip_eqb_eq; reflexivity).
+                 rewrite Hr. reflexivity. }
+             rewrite Htab. destruct Hmt as [H1 [H2 H3]].
+             split; [exact Hm | split; [exact H1 | split; [exact H2 |]]].
+             intros n ->. apply H3. reflexivity.
+          -- destruct (IH c t Hin) as [tl' [Ht1 Ht2]]. exists tl'. split; [exact Ht1 |].
+             assert (Htab : table_of (match r0 with [] => o' | _ :: _ => (c0, r0) :: o' end) c = table_of o' c).
+             { destruct r0 as [| e r0']; [reflexivity |]. unfold table_of. simpl.
+               destruct (chip_eqb c c0) eqn:Hc; [| reflexivity].
+               apply chip_eqb_eq in Hc. subst c. exfalso. apply Hnotin.
+               apply in_map_iff. exists (c0, t). split; [reflexivity | exact Hin]. }
+             rewrite Htab. exact Ht2.
+        * destruct IH as [t [tl' [H1 H2]]]. exists t, tl'. split; [right; exact H1 | exact H2].
+        * destruct IH as [c [t [H1 H2]]]. exists c, t. split; [right; exact H1 | exact H2].
+        * exact IH.
+      + destruct Hmt as [tl' [-> [Hlt _]]]. exists t0, tl'.
+        split; [left; reflexivity | split; [exact Htg | split; [exact Hm | exact Hlt]]]. }
+  destruct (mts_spec ts tg) as [out | c n | |] eqn:Hsp; try exact Hmain.
+  split; [exact Hmain |]. intros c r Hin. apply (mts_spec_keys ts tg out c r Hsp Hin).
+Qed.
